@@ -1,11 +1,13 @@
 //! C13: dump the four code tables of the implementation (exhaustive).
-use crate::util::*;
+use rsdriver::*;
 use rs1090::decode::{decode_id13, gray2alt, Message, DF};
 use rs1090::prelude::*;
 use serde_json::json;
 use std::panic::catch_unwind;
 
-pub fn run(args: &[String]) -> i32 {
+fn main() {
+    quiet_panics();
+    let args: Vec<String> = std::env::args().skip(1).collect();
     let mut tr = Trace::create(&args[0]);
     // identity permutation, all 2^13 arguments
     for x in 0u32..8192 {
@@ -98,5 +100,4 @@ pub fn run(args: &[String]) -> i32 {
     }
     tr.flush();
     println!("{}", tr.n);
-    0
 }
